@@ -8,7 +8,7 @@ from harness.engine import ImplError, impl
 def to_np(x):
     if isinstance(x, dict):
         return {k: to_np(v) for k, v in x.items()}
-    return np.asarray(x)
+    return None if x is None else np.asarray(x)
 
 
 def ref_args(case):
